@@ -68,27 +68,6 @@ theorem optnil_applyAll (rule : RefineRule) (h : List Op) : ∀ i : I,
     cases op <;> simp [apply, isOptionalOp, isNonOptionalOp] at hn ⊢ <;>
       cases i.optional <;> cases i.nilable <;> simp
 
-def isRefineOp : Op → Bool
-  | .refine => true
-  | _ => false
-
-/-- A history is *clean* when it attaches no refinement — the one feature today's code still wrongly consults on the
-    nil path (see the witnesses below). Overwrite calls are allowed: since 4f7c1d7 an attached overwrite no longer makes
-    the default go through the validating checks. -/
-def clean (h : List Op) : Bool := h.all fun op => !isRefineOp op
-
-theorem refines_applyAll (rule : RefineRule) (h : List Op) : ∀ i : I, clean h = true →
-    (applyAll rule i h).refines = i.refines := by
-  induction h with
-  | nil => intro i _; rfl
-  | cons op h ih =>
-    intro i hc
-    simp only [clean, List.all_cons, Bool.and_eq_true] at hc
-    rw [applyAll_cons]
-    have := ih (apply rule i op) (by simpa [clean] using hc.2)
-    rw [this]
-    cases op <;> simp [apply, isRefineOp] at hc ⊢
-
 def isOverwriteOp : Op → Bool
   | .overwrite => true
   | _ => false
@@ -121,28 +100,28 @@ theorem any_prefault_iff (h : List Op) :
 /-! ## The property -/
 
 /-- The full statement: after *every* history of modifier and check-attaching calls the nil
-    outcome is the documented one. (False today: see `c03_witness_*`.) -/
+    outcome is the documented one. -/
 def c03_history_full (rule : RefineRule) (admitsNil : Bool) : Prop :=
   ∀ h : List Op, specNil admitsNil h (nilOutcome admitsNil (applyAll rule {} h)) = true
 
-/-- **C03, engine path.** For every history of Optional/Nilable/Nullish/NonOptional/Default/
-    DefaultFunc/Prefault/PrefaultFunc calls, of any length and in any order, a nil input yields:
-    the default if one was set (unchecked, whether or not it satisfies the checks), else the
-    prefault through the full pipeline, else the nonoptional error, else nil if
-    Optional/Nilable/Nullish was called or the type admits nil, else a type error. -/
-theorem c03_history_partial (rule : RefineRule) (admitsNil : Bool) (h : List Op) (hc : clean h = true) :
-    specNil admitsNil h (nilOutcome admitsNil (applyAll rule {} h)) = true := by
+/-- **C03, engine path — full strength.** For every history of Optional/Nilable/Nullish/NonOptional/Default/
+    DefaultFunc/Prefault/PrefaultFunc calls — and of Overwrite / Refine calls in between — of any length and in any
+    order, a nil input yields: the default if one was set (unchecked, whether or not it satisfies the checks), else the
+    prefault through the full pipeline, else the nonoptional error, else nil if Optional/Nilable/Nullish was called or
+    the type admits nil, else a type error. (Until 4f7c1d7 / 7db47f1 this needed the hypothesis that no overwrite and
+    no refinement is attached: `c03_legacy_witness_*`.) -/
+theorem c03_history (rule : RefineRule) (admitsNil : Bool) : c03_history_full rule admitsNil := by
+  intro h
   have hdv := dv_applyAll rule h {}
   have hdf := df_applyAll rule h {}
   have hpv := pv_applyAll rule h {}
   have hpf := pf_applyAll rule h {}
   have hno := nonOptional_applyAll rule h {}
-  have how := refines_applyAll rule h {} hc
   simp only [Bool.false_or] at hno
   have hon := optnil_applyAll rule h {}
   simp only [Bool.false_or] at hon
   unfold nilOutcome specNil
-  rw [hdv, hdf, hpv, hpf, hno, how, any_default_iff, any_prefault_iff]
+  rw [hdv, hdf, hpv, hpf, hno, any_default_iff, any_prefault_iff]
   generalize ((applyAll rule {} h).optional || (applyAll rule {} h).nilable) = X at hon ⊢
   generalize h.any isNonOptionalOp = A at hon ⊢
   generalize h.any isOptionalOp = B at hon ⊢
@@ -166,10 +145,10 @@ theorem c03_outcome_reads_only_modifiers (admitsNil : Bool) (i j : I)
     (h : i.dv = j.dv ∧ i.df = j.df ∧ i.pv = j.pv ∧ i.pf = j.pf ∧ i.nonOptional = j.nonOptional ∧
          i.optional = j.optional ∧ i.nilable = j.nilable ∧ i.hasOverwrite = j.hasOverwrite ∧
          i.refines = j.refines) : nilOutcome admitsNil i = nilOutcome admitsNil j := by
-  obtain ⟨h1, h2, h3, h4, h5, h6, h7, _, h9⟩ := h
-  unfold nilOutcome; rw [h1, h2, h3, h4, h5, h6, h7, h9]
+  obtain ⟨h1, h2, h3, h4, h5, h6, h7, _, _⟩ := h
+  unfold nilOutcome; rw [h1, h2, h3, h4, h5, h6, h7]
 
-/-! ### Witnesses: the full statement is false today (known findings) -/
+/-! ### Witnesses: the statement discriminates — the nil pass as it was before 4f7c1d7 / 7db47f1 falsifies it -/
 
 /-- Before 4f7c1d7 — `String().Trim().Default(bad).Parse(nil)`: with an overwrite attached the default value was
     run through all checks, so a default that does not satisfy them was an error. -/
@@ -200,18 +179,24 @@ theorem c03_witness_overwrite_on_default : ¬ c03_default_runs_no_check_full .ni
   have := hfull [.dflt true, .overwrite] (by decide)
   revert this; decide
 
-/-- `String().Refine(f).Optional().Parse(nil)`: refinements run on the nil value and a wrapper
+/-- Before 7db47f1 — `String().Refine(f).Optional().Parse(nil)`: refinements ran on the nil value and a wrapper
     attached before `Optional()` rejects nil. -/
-theorem c03_witness_refine_on_nil : ¬ c03_history_full .ptrTy false := by
+theorem c03_legacy_witness_refine_on_nil :
+    ¬ ∀ h : List Op, specNil false h (legacyNilOutcome false (applyAll .ptrTy {} h)) = true := by
   intro hfull
   have := hfull [.refine, .optional]
   revert this; decide
 
 /-- `Int().Refine(f).Nilable().Parse(nil)` likewise for the Nilable-flag rule. -/
-theorem c03_witness_refine_on_nil_int : ¬ c03_history_full .nilableFlag false := by
+theorem c03_legacy_witness_refine_on_nil_int :
+    ¬ ∀ h : List Op, specNil false h (legacyNilOutcome false (applyAll .nilableFlag {} h)) = true := by
   intro hfull
   have := hfull [.refine, .nilable]
   revert this; decide
+
+/-- Since 7db47f1 those histories yield nil. -/
+example : nilOutcome false (applyAll .ptrTy {} [.refine, .optional]) = .nil ∧
+    nilOutcome false (applyAll .nilableFlag {} [.refine, .nilable]) = .nil := by decide
 
 /-! ## Wrapped schemas: `Transform` / `Pipe` chains around a modified schema (core/transform.go) -/
 
@@ -397,23 +382,19 @@ theorem pipeCalls_eq_spec (v : V) (ws : List W) : ∀ n, pipeCalls v n ws = runP
 
 /-- The full statement for wrapped schemas: after every history (check-attaching calls included) and
     under every chain of `Transform` / `Pipe` wrappers a nil input yields the documented observation —
-    result **and** callback log. (False today only because of the bare schema's deviations:
-    `c03_wrapped_witness_default_checked`; the wrappers themselves never deviate, see
-    `c03_wrapped_partial`, whose only hypothesis is the one of `c03_history_partial`.) -/
+    result **and** callback log. -/
 def c03_wrapped_full (rule : RefineRule) (admitsNil : Bool) : Prop :=
   ∀ (h : List Op) (ws : List W),
     specNilW admitsNil h ws ((wrap (applyAll rule {} h) ws).parse admitsNil .nil) = true
 
-/-- **C03 under wrappers — every chain.** For every history of the eight modifiers (any length, any
-    order) and **every** chain of `Transform(fᵢ)` / `Pipe(Tᵢ)` wrappers a nil input yields: the default
-    value, no Transform callback called (pipe targets receive the default); else the validated prefault
-    passed through every wrapper once each in order; else the nonoptional error, nothing called; else
-    nil passed through the wrappers (Optional/Nilable/type admits nil); else a type error, nothing
-    called. -/
-theorem c03_wrapped_partial (rule : RefineRule) (admitsNil : Bool) (h : List Op) (ws : List W)
-    (hc : clean h = true) :
-    specNilW admitsNil h ws ((wrap (applyAll rule {} h) ws).parse admitsNil .nil) = true := by
-  have hs := c03_history_partial rule admitsNil h hc
+/-- **C03 under wrappers — every history, every chain (full strength).** For every history (any length, any
+    order, check-attaching calls included) and **every** chain of `Transform(fᵢ)` / `Pipe(Tᵢ)` wrappers a nil input
+    yields: the default value, no Transform callback called (pipe targets receive the default); else the validated
+    prefault passed through every wrapper once each in order; else the nonoptional error, nothing called; else
+    nil passed through the wrappers (Optional/Nilable/type admits nil); else a type error, nothing called. -/
+theorem c03_wrapped (rule : RefineRule) (admitsNil : Bool) : c03_wrapped_full rule admitsNil := by
+  intro h ws
+  have hs := c03_history rule admitsNil h
   have hd := hasDefault_applyAll rule h
   generalize hI : applyAll rule {} h = i at hs hd
   apply specNilW_of admitsNil h ws (nilOutcome admitsNil i) _ hs
@@ -450,13 +431,6 @@ theorem c03_wrapped_partial (rule : RefineRule) (admitsNil : Bool) (h : List Op)
     | dflt k => exact absurd ho (hnd k)
     | _ => simp [specWrapped, extend]
 
-/-- The wrapped full statement inherits the bare schema's deviation (a refinement attached before Optional()
-    rejects the nil), here under two chained transforms. -/
-theorem c03_wrapped_witness_refine_on_nil : ¬ c03_wrapped_full .ptrTy false := by
-  intro hfull
-  have := hfull [.refine, .optional] [.tf, .tf]
-  revert this; decide
-
 /-- **A non-nil input is not affected by the modifiers, under every wrapper chain**: result and
     callback log are those of the unmodified base schema under the same wrappers, namely the base
     verdict followed by every wrapper once in order. -/
@@ -480,8 +454,8 @@ example :
     (wrap (applyAll .ptrTy {} [.nonOptional]) [.tf, .pipe]).parse false .nil = (.err .nonOptional, []) := by
   decide
 
-/-- Non-vacuity: clean histories of every shape exist and exercise every branch. -/
-example : clean [.optional, .dflt false, .nonOptional, .prefaultFn true] = true ∧
+/-- Non-vacuity: histories of every shape exercise every branch. -/
+example :
     nilOutcome false (applyAll .ptrTy {} [.optional, .dflt false, .nonOptional, .prefaultFn true]) = .dflt false ∧
     nilOutcome false (applyAll .ptrTy {} [.nilable, .nonOptional, .optional]) = .nonOptional ∧
     nilOutcome false (applyAll .ptrTy {} [.prefault false, .nullish]) = .checkError ∧
@@ -510,7 +484,7 @@ theorem step_eq_parseBase (c : Ctx) (s : Sch) (inp : In) :
     rcases i.dv with _ | v1 <;> rcases i.df with _ | v2 <;> rcases i.pv with _ | v3 <;> rcases i.pf with _ | v4
     all_goals first
       | rfl
-      | (cases i.nonOptional <;> cases (i.optional || i.nilable) <;> cases adm <;> cases i.refines.all id <;> rfl)
+      | (cases i.nonOptional <;> cases (i.optional || i.nilable) <;> cases adm <;> rfl)
       | (cases v3 <;> rfl) | (cases v4 <;> rfl)
   · rfl
   · rfl
@@ -570,38 +544,32 @@ def PStep.sch (p : PStep) : Sch := ⟨p.admitsNil, applyAll p.rule {} p.h⟩
 def seqMeetsSpec (c0 : Ctx) (ps : List PStep) : Bool :=
   ((runSeq ctxStep c0 (ps.map fun p => (p.sch, p.inp))).2.zip ps).all fun rp => specStep rp.2.admitsNil rp.2.h rp.2.inp rp.1
 
-theorem specStep_parseBase (p : PStep) (hc : clean p.h = true) :
+theorem specStep_parseBase (p : PStep) :
     specStep p.admitsNil p.h p.inp (parseBase p.admitsNil (applyAll p.rule {} p.h) p.inp) = true := by
-  have hs := c03_history_partial p.rule p.admitsNil p.h hc
+  have hs := c03_history p.rule p.admitsNil p.h
   cases hi : p.inp
   · simp only [parseBase, baseNil]
     cases ho : nilOutcome p.admitsNil (applyAll p.rule {} p.h) <;> simp [specStep, ho] at hs ⊢ <;> exact hs
   · rfl
   · rfl
 
-/-- The full statement over sequences (false today for the same reason as `c03_history_full`). -/
+/-- The full statement over sequences. -/
 def c03_ctx_seq_full : Prop := ∀ (c0 : Ctx) (ps : List PStep), seqMeetsSpec c0 ps = true
 
-/-- **C03 for every sequence of parses through one context**: whatever the initial context, every parse of the
-    sequence (nil or non-nil input, any of the eight modifiers in any order on each schema) yields the outcome the
-    statement assigns to its own history and input. -/
-theorem c03_ctx_seq_partial (c0 : Ctx) (ps : List PStep) (hc : ps.all (fun p => clean p.h) = true) :
-    seqMeetsSpec c0 ps = true := by
+/-- **C03 for every sequence of parses through one context (full strength)**: whatever the initial context, every
+    parse of the sequence (nil or non-nil input, any modifier and check-attaching calls in any order on each schema)
+    yields the outcome the statement assigns to its own history and input. -/
+theorem c03_ctx_seq : c03_ctx_seq_full := by
+  intro c0 ps
   unfold seqMeetsSpec
   rw [runSeq_results]
   induction ps with
   | nil => rfl
   | cons p ps ih =>
-    simp only [List.all_cons, Bool.and_eq_true] at hc
     simp only [List.map_cons, List.zip_cons_cons, List.all_cons, Bool.and_eq_true]
-    refine ⟨?_, ih hc.2⟩
+    refine ⟨?_, ih⟩
     rw [step_eq_parseBase]
-    exact specStep_parseBase p hc.1
-
-theorem c03_ctx_seq_witness : ¬ c03_ctx_seq_full := by
-  intro hfull
-  have := hfull {} [⟨.ptrTy, false, [.prefault false], .nil⟩, ⟨.ptrTy, false, [.refine, .optional], .nil⟩]
-  revert this; decide
+    exact specStep_parseBase p
 
 /-- Non-vacuity: a context with the flag set by the caller, a failing prefault first, then an Optional schema with
     a valid prefault, a defaulted one, a non-nil input and a required one. -/
@@ -678,7 +646,7 @@ theorem c03_nonnil_frame : nonnilFrame dropsCfg := by
   | nil => rfl
   | cons op h ih => simp only [List.any_cons, ih, Bool.or_false]; rfl
 
-/-- The nil side of the same schema is the history model's: `c03_history_partial` & co. apply unchanged. -/
+/-- The nil side of the same schema is the history model's: `c03_history` & co. apply unchanged. -/
 theorem c03_frame_nil_side {Cfg X Y : Type} (drops : Kind → Op → Bool) (validate : Cfg → X → Option Y) (k : Kind)
     (rule : RefineRule) (zero : Cfg) (h : List Op) (s : SchC Cfg) (c : Ctx) :
     (ctxStepX validate c (applyAllC drops k rule zero s h) none).2 =
